@@ -17,7 +17,8 @@ LAYER = {1: "invariant: PkgOK (manifest file entries = package files, each once;
          2: "zip-shape: the saved zip does not start with a STORED mimetype entry / has duplicate names / disagrees with its manifest",
          3: "manifest: the manifest entry list after the operation differs from the model's",
          4: "result: the operation's result (raised or not) differs from the model's",
-         5: "abstraction: duplicate keys in the abstracted state"}
+         5: "abstraction: duplicate keys in the abstracted state",
+         8: "bookkeeping: the invariant the theorems assume (unique keys, current folder time stamps, cached XML parts only) is lost"}
 WEIGHTS = dict(addfile=6, frame=2, **{"del": 4}, delmandatory=1, **{"import": 2}, set=1, get=1, touch=1, edit=1, save=4, saveself=1, reopen=3, clone=2)
 
 
@@ -84,7 +85,7 @@ def key_of(rec, code, probs):
         return "%s/%s" % (k, "manifest-incoherent")
     if code == 2:
         return "%s/%s" % (k, "+".join(probs) or "zip-shape")
-    return "%s/%s" % (k, {4: "result", 5: "abstraction"}.get(code, str(code)))
+    return "%s/%s" % (k, {4: "result", 5: "abstraction", 8: "bookkeeping"}.get(code, str(code)))
 
 
 def run(tier, seed, replay=None):
